@@ -237,4 +237,44 @@ example : (exec St.init (.call interceptDef [.call ⟨⟨3#64, 0#64, 0#64⟩, Re
 
 example : wfBody [.call CtxDef.none [.op (.reqCpu 20#64)] [], .op (.reqCpu 1#64)] = true := by decide
 
+/-! ## monotonicity of the regenerated limit test -/
+
+/-- the regenerated limit test is monotone in the counter: once a counter is at its limit it stays
+there however much more is charged (no wrap-around *inside the test*; the counter itself is kept from
+wrapping by `kill_exact`) -/
+theorem atLimit_monotone (v v' l : BitVec 64) (h : atLimit v l = true) (hv : v.toNat ≤ v'.toNat) :
+    atLimit v' l = true := by
+  rw [atLimit_iff] at *; exact ⟨h.1, Nat.le_trans h.2 hv⟩
+
+/-- and antitone in the limit: a tighter (non-zero) limit is reached no later -/
+theorem atLimit_antitone_limit (v l l' : BitVec 64) (h : atLimit v l = true) (hl : l' ≠ 0#64)
+    (hll : l'.toNat ≤ l.toNat) : atLimit v l' = true := by
+  rw [atLimit_iff] at *; exact ⟨hl, Nat.le_trans hll h.2⟩
+
+/-- limit 0 means unlimited: never reached, by any counter value including 2^64 − 1 -/
+theorem atLimit_unlimited (v : BitVec 64) : atLimit v 0#64 = false := by
+  rw [atLimit_false_iff]; exact Or.inl rfl
+
+/-- `Dominates` is antitone in the counters: if the larger counter vector is still within the limits,
+so is every smaller one (determinism + monotonicity of the kill decision) -/
+theorem dominates_antitone (r v v' : RuntimeResources) (h : r.Dominates v' = true) (hv : cntLe v v') :
+    r.Dominates v = true := by
+  rw [Dominates_iff] at *
+  unfold resBelow below at *
+  unfold cntLe at hv
+  obtain ⟨h1, h2, h3⟩ := h
+  obtain ⟨g1, g2, g3⟩ := hv
+  refine ⟨?_, ?_, ?_⟩
+  · rcases h1 with h1 | h1
+    · exact Or.inl h1
+    · exact Or.inr (by omega)
+  · rcases h2 with h2 | h2
+    · exact Or.inl h2
+    · exact Or.inr (by omega)
+  · rcases h3 with h3 | h3
+    · exact Or.inl h3
+    · exact Or.inr (by omega)
+
+example : atLimit 10#64 10#64 = true ∧ atLimit 9#64 10#64 = false ∧ atLimit (BitVec.ofNat 64 (2^64-1)) 0#64 = false := by decide
+
 end GoluaVerif.Props.C05
